@@ -9,7 +9,13 @@
     the exact comparison selects (signed / unsigned precondition by dsl.psigned on the program text; the class
     divmod-negative by `neg_class` on the program text -- neither from the implementation's objects);
 (c) the binary64 model (`Ebv.F64`) against CPython's float: exhaustive sweep of n/10^5 and random fractions -- a TEST of
-    the float model, not a proof; Python-side set/get of `x` map variables through a bytearray-backed map."""
+    the float model, not a proof; Python-side set/get of `x` map variables through a bytearray-backed map;
+(d) the Python side over HISTORIES (a later use of the same live objects): main programs of a class and of a derived class
+    with sub-program instances of one class -- all sharing the descriptor objects and one ArrayMap object -- are created
+    one after another and kept in use; assignments of decimals from Python, runs of the really generated code on the very
+    same map memory, reads and integer assignments alternate (the value assigned before is assigned again after the
+    program changed the variable).  Oracle on the raw bytes of every live map after every operation; model
+    `Ebv.FixedStore` (theorems in Props/C02Hist.lean: the result of an assignment does not depend on earlier uses)."""
 import math
 from fractions import Fraction
 
@@ -17,8 +23,8 @@ from .. import dsl, dsl_fixed as D, fsim, interp
 from . import c01
 
 ID = "C02"
-LEAN_MODULES = ["Ebv.Props.C02"]
-MODEL_MODULES = ["Ebv.Model.GenFixed", "Ebv.Model.Float64"]
+LEAN_MODULES = ["Ebv.Props.C02", "Ebv.Props.C02Hist"]
+MODEL_MODULES = ["Ebv.Model.GenFixed", "Ebv.Model.Float64", "Ebv.Model.FixedStore"]
 DRIVER = "Drivers/C02.lean"
 FB = D.FB
 M64 = dsl.M64
@@ -265,7 +271,7 @@ def cmp_probe(ctx, rng):
     return dict(prog, cmp=[a, b])
 
 
-def check_cmp(ctx, case):
+def check_cmp(ctx, case, inputs=None):
     built = D.FBuilt(case)
     E = built.E
     try:
@@ -276,9 +282,9 @@ def check_cmp(ctx, case):
     fm = {n: f for n, f, _ in case["vars"]}
     lay = built.layout()
     byloc = {(b, off): n for n, (b, off, f) in lay.items()}
-    for k in range(4):
-        inp = make_inputs(ctx.rng, dict(case, stmts=[["set", ["x", 0], case["cmp"][0]], ["set", ["x", 0], case["cmp"][1]]]),
-                          "nonneg")
+    for k in range(1 if inputs is not None else 4):
+        inp = inputs if inputs is not None else make_inputs(
+            ctx.rng, dict(case, stmts=[["set", ["x", 0], case["cmp"][0]], ["set", ["x", 0], case["cmp"][1]]]), "nonneg")
         regs = {int(x): v for x, v in inp["regs"].items()}
         regs[10] = interp.STACK_TOP
         varat = lambda base, off, fmt, _v=inp["vars"]: (dsl.sx(_v[byloc[(base, off)]], 64) if fmt == "x"
@@ -506,6 +512,344 @@ def check_cond(ctx, case, inputs_list):
     return out
 
 
+# ----------------------------------------------------------------------------- histories of the Python side
+# "assigned from Python is represented exactly" for a LATER use: real program instances (main programs of a class and of
+# a derived class, sub-program instances of one class -- they share the descriptor objects) are kept alive; assignments
+# from Python, runs of the really generated code on the very same map memory and reads alternate.  Observation: the raw
+# bytes of every live map after every operation.  Oracle: after `var = decimal n/10^5` the variable holds exactly n,
+# whatever happened before; a read gives stored/10^5; a run leaves what the exact arithmetic says; every other byte of
+# every live map is unchanged.  Model: Ebv.FixedStore (no memo, nothing per instance), theorems in Props/C02Hist.lean.
+HPOOL = sorted(set(D.BELOW[:12] + D.DEC_CLASSES["unit"] + [150000, 250000, 123456, 2**31 - 1, 2**31, 2**32 + 29000]))
+HFIT = 1 << 62
+
+
+def h_classes(H):
+    """the real classes of one history case: main program, derived program, sub-program, all on ONE ArrayMap object"""
+    from ebpfcat import ebpf as E
+    from ebpfcat.arraymap import ArrayMap
+    amap = ArrayMap()
+    ns = {"gmap": amap}
+    ns.update({n: amap.globalVar(f) for n, f in H["vars"]})
+    main = type("HMain", (E.EBPF,), ns)
+    der = type("HDer", (main,), {n: amap.globalVar(f) for n, f in H["extra"]})
+    sub = type("HSub", (E.SubProgram,), {n: amap.globalVar(f) for n, f in H["sub"]})
+    return E, {"main": main, "der": der}, sub
+
+
+def h_vars(H, world, s):
+    """declared variables [(name, fmt)] of instance s (0 = the main program, 1.. = its sub-programs) of a world"""
+    if s:
+        return [tuple(v) for v in H["sub"]]
+    return [tuple(v) for v in H["vars"]] + ([tuple(v) for v in H["extra"]] if world["cls"] == "der" else [])
+
+
+def h_fm(H, world):
+    return {f"{s}.{n}": f for s in range(world["subs"] + 1) for n, f in h_vars(H, world, s)}
+
+
+def h_expr(insts, j):
+    k = j[0]
+    if k == "c":
+        return int(j[1])
+    if k == "d":
+        return D.dec_float(j[1])
+    if k == "v":
+        s, n = j[1].split(".")
+        return getattr(insts[int(s)], n)
+    return D.FOPS[k](h_expr(insts, j[1]), h_expr(insts, j[2]))
+
+
+class HWorld:
+    """one live main program with its sub-programs; the statements are issued into the real program, then it counts as
+    loaded (the map memory is a bytearray, fsim.fake_maps)"""
+
+    def __init__(self, E, classes, sub, H, world):
+        self.fm = h_fm(H, world)
+        with fsim.fake_maps():
+            subs = [sub() for _ in range(world["subs"])]
+            self.e = classes[world["cls"]](subprograms=subs)
+        self.insts = [self.e] + subs
+        n0 = len(self.e.opcodes)
+        for st in world["stmts"]:
+            s, n = st[1][1].split(".")
+            setattr(self.insts[int(s)], n, h_expr(self.insts, st[2]))
+        self.code = [(i.opcode.value, i.dst, i.src, i.off, i.imm) for i in self.e.opcodes[n0:]]
+        self.mem = self.e.__dict__["gmap"]
+        self.off = {}                                   # where the variables are, recorded once
+        for key in self.fm:
+            s, n = key.split(".")
+            self.off[key] = self.insts[int(s)].__dict__[n]
+        self.e.loaded = True
+
+    def raw(self, key):
+        import struct
+        f = self.fm[key]
+        return struct.unpack_from("q" if f == "x" else f, self.mem, self.off[key])[0]
+
+    def run(self):
+        m = interp.Machine(self.code + [(0x95, 0, 0, 0, 0)], [interp.Region(GLOBAL_BASE, self.mem, "globals")])
+        m.regs[7], m.init[7] = GLOBAL_BASE, True
+        try:
+            m.run()
+        except interp.Fault as e:
+            if not (m.trace and m.trace[-1] == len(self.code)):
+                return f"fault:{e}"
+        return None
+
+
+def h_fits(j, vars_, fm):
+    """every node of the statement has an exact value v with |v| * 10^10 < 2^62 (so neither a scaled operand nor the
+    unscaled product of two fixed values leaves 64 bits)"""
+    for q in D.eval_q(j, {}, vars_, fm):
+        if abs(q) * FB * FB >= HFIT:
+            return False
+    return j[0] in ("c", "d", "v") or (h_fits(j[1], vars_, fm) and h_fits(j[2], vars_, fm))
+
+
+def h_reference(world, fm, shadow):
+    """what the program of a world does to the shadow {key: signed raw}: list of (key, new raw) per statement, or None
+    when a statement is outside the precondition (does not fit / negative operand of a division / two acceptable results)"""
+    out, cur = [], dict(shadow)
+    for st in world["stmts"]:
+        vars_ = {k: v & M64 for k, v in cur.items()}
+        try:
+            if not h_fits(st[2], vars_, fm) or neg_class(st, {}, vars_, fm):
+                return None
+            want = D.expected_raw(st, {}, vars_, fm)
+        except (dsl.Outside, KeyError, ZeroDivisionError, AssertionError):
+            return None
+        if len(want) != 1:
+            return None
+        key = st[1][1]
+        new = dsl.sx(next(iter(want)), 64) if fm[key] in "xq" else next(iter(want))
+        out.append((key, new))
+        cur[key] = new
+    return out
+
+
+def h_gen_stmt(rng, fm):
+    xs = [k for k, f in fm.items() if f == "x"]
+    qs = [k for k, f in fm.items() if f == "q"]
+    dec = lambda: ["d", rng.choice(HPOOL[:24] + [100000, 50000, 1])]
+    v = lambda: ["v", rng.choice(xs)]
+    if qs and rng.random() < 0.2:
+        dest = rng.choice(qs)
+        e = rng.choice([v(), ["+", ["v", dest], ["c", rng.randrange(1, 9)]], ["//", v(), ["d", rng.choice([50000, 29000, 100000, 1])]]])
+    else:
+        dest = rng.choice(xs)
+        e = rng.choice([["+", ["v", dest], dec()], ["+", ["v", dest], dec()], ["-", ["v", dest], dec()], ["+", v(), v()],
+                        ["*", v(), ["c", rng.randrange(2, 4)]], ["*", v(), dec()], dec(), v(), ["+", v(), ["c", 1]],
+                        ["/", v(), ["c", rng.choice([2, 4, 8])]]] + ([["v", rng.choice(qs)]] if qs else []))
+    return ["set", ["v", dest], e]
+
+
+def gen_hist(rng):
+    """one history case; the generator simulates the reference so that every run stays inside the precondition"""
+    H = {"vars": [["va", "x"], ["vb", "x"]] + ([["vc", "x"]] if rng.random() < 0.5 else []) + ([["vk", "q"]] if rng.random() < 0.6 else []),
+         "extra": [["vd", "x"]] + ([["vj", "q"]] if rng.random() < 0.3 else []),
+         "sub": [["su", "x"]] + ([["st", "x"]] if rng.random() < 0.4 else []), "worlds": [], "ops": []}
+    for w in range(rng.choice([1, 2, 2])):
+        world = {"cls": rng.choice(["main", "der"]), "subs": rng.choice([0, 1, 2, 2])}
+        fm = h_fm(H, world)
+        world["stmts"] = [h_gen_stmt(rng, fm) for _ in range(rng.randrange(1, 5))]
+        H["worlds"].append(world)
+    fms = [h_fm(H, w) for w in H["worlds"]]
+    shadow = [None] * len(H["worlds"])
+    born = sorted(rng.sample(range(1, 9), len(H["worlds"]) - 1))          # when the later worlds are created
+    pool = rng.sample(HPOOL, 3) + [rng.randrange(0, 1 << 33)]
+    if rng.random() < 0.3:
+        pool += [-rng.choice(HPOOL[:20]), -rng.randrange(1, 1 << 30)]
+    sets, ops = [], H["ops"]
+
+    def new(w):
+        ops.append(["new", w])
+        shadow[w] = {k: 0 for k in fms[w]}
+    new(0)
+    for t in range(rng.randrange(6, 16)):
+        while born and born[0] <= t:
+            born.pop(0)
+            new(sum(s is not None for s in shadow))
+        live = [w for w, s in enumerate(shadow) if s is not None]
+        w = rng.choice(live)
+        xs = [k for k, f in fms[w].items() if f == "x"]
+        qs = [k for k, f in fms[w].items() if f == "q"]
+        r = rng.random()
+        if r < 0.45:
+            prev = [s for s in sets if s[0] in live]
+            if prev and rng.random() < 0.55:                 # the value assigned before, to the same variable, again
+                w, key, n = rng.choice(prev)
+            else:
+                key, n = rng.choice(xs), rng.choice(pool)
+            ops.append(["set", w, key, n])
+            sets.append((w, key, n))
+            shadow[w][key] = n
+        elif r < 0.75:
+            ref = h_reference(H["worlds"][w], fms[w], shadow[w])
+            if ref is not None:
+                ops.append(["run", w])
+                shadow[w].update(dict(ref))
+        elif r < 0.93 or not qs:
+            ops.append(["get", w, rng.choice(xs + qs)])
+        else:
+            key, n = rng.choice(qs), rng.choice([0, 1, 7, 100000, -3, 2**40 + 5])
+            ops.append(["seti", w, key, n])
+            shadow[w][key] = n
+    return {"hist": H}
+
+
+def h_model_case(case):
+    """the same history as operations of Ebv.FixedStore: instance number = 4 * world + s, variable number = position
+    in the instance's declaration list; a run becomes the writes the REFERENCE predicts (one operation per statement);
+    `vis` = which model operations end a harness operation (their dumps are compared)"""
+    H = case["hist"]
+    fms = [h_fm(H, w) for w in H["worlds"]]
+    num = lambda w, key: (4 * w + int(key.split(".")[0]),
+                          [n for n, _ in h_vars(H, H["worlds"][w], int(key.split(".")[0]))].index(key.split(".")[1]))
+    decl = [list(num(w, k)) for w in range(len(fms)) for k in fms[w]]
+    shadow = [{k: 0 for k in fm} for fm in fms]
+    mops, vis = [], []
+    for op in H["ops"]:
+        k, w = op[0], op[1]
+        if k == "new":
+            continue
+        if k == "set":
+            i, v = num(w, op[2])
+            mops.append(["set", i, v, op[3]])
+            shadow[w][op[2]] = op[3]
+        elif k == "seti":
+            i, v = num(w, op[2])
+            mops.append(["write", i, [[v, op[3]]]])
+            shadow[w][op[2]] = op[3]
+        elif k == "get":
+            i, v = num(w, op[2])
+            mops.append(["get" if fms[w][op[2]] == "x" else "geti", i, v])
+        else:
+            ref = h_reference(H["worlds"][w], fms[w], shadow[w])
+            if ref is None:
+                break                                          # outside the precondition: the history ends here
+            for key, new in ref:
+                i, v = num(w, key)
+                mops.append(["write", i, [[v, new]]])
+            shadow[w].update(dict(ref))
+        vis.append(len(mops) - 1)
+    return {"mops": mops, "decl": decl}, vis
+
+
+def h_dump(H, worlds):
+    """raw contents of every declared variable, worlds not created yet read as the fresh map they will get"""
+    out = []
+    for w, world in enumerate(H["worlds"]):
+        for key in h_fm(H, world):
+            out.append(str(worlds[w].raw(key)) if worlds[w] is not None else "0")
+    return ",".join(out)
+
+
+def check_hist(ctx, case):
+    """real code + property oracle for one history; returns the observation lines (one per operation that is no `new`)"""
+    import struct
+    H = case["hist"]
+    lines = []
+    try:
+        E, classes, sub = h_classes(H)
+    except Exception as ex:                              # noqa: BLE001 - an observation
+        ctx.require(False, "declaring the program classes raises", case, f"{type(ex).__name__}: {ex}", None)
+        return ["declare:" + type(ex).__name__]
+    worlds = [None] * len(H["worlds"])
+    shadow = [None] * len(H["worlds"])
+    for t, op in enumerate(H["ops"]):
+        k, w = op[0], op[1]
+        at = dict(case, at=t)
+        before = [bytes(x.mem) if x is not None else None for x in worlds]
+        seen = ""
+        try:
+            if k == "new":
+                worlds[w] = HWorld(E, classes, sub, H, H["worlds"][w])
+                shadow[w] = {key: 0 for key in worlds[w].fm}
+                ranges = sorted((o, o + 8) for o in worlds[w].off.values())
+                ctx.require(all(a[1] <= b[0] for a, b in zip(ranges, ranges[1:])) and ranges[-1][1] <= len(worlds[w].mem),
+                            "variables of one map overlap or lie outside the map", at, str(ranges), None)
+                ctx.require(not any(worlds[w].mem), "a fresh map is not zero", at, None, None)
+                touched = None
+            elif k == "set":
+                s, n = op[2].split(".")
+                setattr(worlds[w].insts[int(s)], n, D.dec_float(op[3]))
+                shadow[w][op[2]] = op[3]
+                touched = {op[2]}
+            elif k == "seti":
+                s, n = op[2].split(".")
+                setattr(worlds[w].insts[int(s)], n, op[3])
+                shadow[w][op[2]] = op[3]
+                touched = {op[2]}
+            elif k == "get":
+                s, n = op[2].split(".")
+                got = getattr(worlds[w].insts[int(s)], n)
+                want = shadow[w][op[2]] / FB if worlds[w].fm[op[2]] == "x" else shadow[w][op[2]]
+                ctx.require(type(got) is type(want) and got == want, "reading a variable from Python does not give the value "
+                            "it holds (stored / 10^5 for an x variable)", at, f"read={got!r} want={want!r}", None)
+                seen = (dy(got) if isinstance(got, float) else str(got)) + " "
+                touched = set()
+            else:
+                ref = h_reference(H["worlds"][w], worlds[w].fm, shadow[w])
+                if ref is None:
+                    lines.append("outside")
+                    ctx.stats["hist:outside"] += 1
+                    return lines
+                res = worlds[w].run()
+                if res is not None:
+                    ctx.require(False, "generated code faults inside the precondition", at, res, None)
+                    return lines + [res]
+                shadow[w].update(dict(ref))
+                touched = {key for key, _ in ref}
+        except Exception as ex:                          # noqa: BLE001 - an exception of the real code is an observation
+            ctx.require(False, "an operation of the history raises", at, f"{type(ex).__name__}: {ex}", None)
+            return lines + ["raise:" + type(ex).__name__]
+        # the oracle on the raw bytes of every live map
+        for v, x in enumerate(worlds):
+            if x is None or (k == "new" and v == w):
+                continue
+            want = bytearray(before[v])
+            if v == w:
+                for key in touched:
+                    f = "q" if x.fm[key] in "xq" else x.fm[key]
+                    struct.pack_into(f, want, x.off[key], shadow[w][key])
+            if bytes(x.mem) == bytes(want):
+                continue
+            bad = [key for key in x.fm if x.raw(key) != shadow[v][key]]
+            if k == "set" and v == w and op[2] in bad:
+                ctx.require(False, "Python-side assignment of a decimal to an x variable is not exact (later use: after earlier "
+                            "assignments, program runs and reads)", at, f"stored={x.raw(op[2])} want={op[3]}", None)
+            elif k == "run" and v == w and set(bad) <= touched:
+                ctx.require(False, "a program run leaves something else than the exact result in its destinations", at,
+                            " ".join(f"{key}: got={x.raw(key)} want={shadow[v][key]}" for key in bad), None)
+            else:
+                ctx.require(False, "an operation changed bytes it must not touch (another variable, another instance, another "
+                            "program's map)", at, f"world={v} differing variables={bad}", None)
+            return lines + ["diverged"]
+        if k != "new":
+            lines.append(seen + h_dump(H, worlds))
+    return lines
+
+
+def hist_family(ctx, cases):
+    impl, model_in, vis = [], [], []
+    for c in cases:
+        H = c["hist"]
+        ctx.case(c, kind=f"hist:{len(H['worlds'])}w:" + ("rerun" if sum(o[0] == "run" for o in H["ops"]) > 1 else "run1"))
+        impl.append(check_hist(ctx, c))
+        m, v = h_model_case(c)
+        model_in.append(m)
+        vis.append(v)
+    model = ctx.drive(DRIVER, model_in, "hist")
+    if model is not None:
+        for c, i, m, v in zip(cases, impl, model, vis):
+            parts = m.split(" ; ") if m else []
+            picked = [parts[j] for j in v if j < len(parts)]
+            if i and i[-1] == "outside":
+                i = i[:-1]
+            ctx.agree("raw map contents and values read over a history (real descriptors + generated code vs Ebv.FixedStore)",
+                      c, " ; ".join(i), " ; ".join(picked))
+
+
 # ----------------------------------------------------------------------------- run / replay
 def run(ctx):
     progs = gen_programs(ctx)
@@ -549,6 +893,8 @@ def run(ctx):
     float_model(ctx)
     python_side(ctx, sorted(set(D.BELOW + D.DEC_CLASSES["unit"] + D.DEC_CLASSES["neg"] + D.DEC_CLASSES["big"]
                                 + [ctx.rng.randrange(-2**51 + 1, 2**51) for _ in range(ctx.n(300, 20000))])))
+    # (d) the Python side over histories: live instances used again after the program ran, several instances and programs
+    hist_family(ctx, [gen_hist(ctx.rng) for _ in range(ctx.n(1200, 20000))])
     ctx.extra["proved"] = PROVED
     ctx.extra["corresponded_not_proved"] = CORRESPONDED_NOT_PROVED
 
@@ -562,11 +908,13 @@ def replay(ctx, case):
     if "pyset" in case:
         python_side(ctx, [case["pyset"]])
         return {"pyset": case["pyset"]}
+    if "hist" in case:
+        return {"hist": check_hist(ctx, {"hist": case["hist"]})}
     if "cond" in case:
         c = case["cond"]
         return {"cond": check_cond(ctx, c, [case["inputs"]] if "inputs" in case else [cond_inputs(ctx.rng, c) for _ in range(6)])}
     if "cmp" in case:
-        return {"cmp": check_cmp(ctx, case["cmp"])}
+        return {"cmp": check_cmp(ctx, case["cmp"], case.get("inputs"))}        # the stored inputs, not fresh ones
     prog = case["prog"]
     res, built = D.emit_real(prog, True)
     if isinstance(res, str):
@@ -583,6 +931,8 @@ THEOREMS = [
     "Ebv.C02.C02_ops_reg", "Ebv.C02.C02_ops_mem", "Ebv.C02.stmtsF_correct", "Ebv.C02.C02_partial", "Ebv.C02.divOkB_sound",
     "Ebv.C02.C02_full_refuted", "Ebv.C02.divmod_negative_mul_refuted", "Ebv.C02.divmod_negative_store_refuted",
     "Ebv.C02.fixed_to_short_div32_refuted",
+    "Ebv.C02.set_exact_after_history", "Ebv.C02.set_history_irrelevant", "Ebv.C02.set_frame", "Ebv.C02.untouched_keeps",
+    "Ebv.C02.last_set_wins", "Ebv.C02.instances_independent", "Ebv.C02.other_instances_keep", "Ebv.C02.memo_refuted",
 ]
 TRUSTED = ["hand-written models Ebv.GenFixed (FIXED_BASE insertion of the operator overloads, Constant.__imul__ folding, store "
            "scaling, x registers/variables) on top of C01's Ebv.Gen, tied to ebpfcat/ebpf.py by EXACT opcode-list equality "
@@ -591,7 +941,11 @@ TRUSTED = ["hand-written models Ebv.GenFixed (FIXED_BASE insertion of the operat
            "binary64 model Ebv.F64 (round-to-nearest-even with unbounded exponent; float(str), int/int and float*float of "
            "CPython assumed correctly rounded): validated against CPython by a sweep every run, NOT proved against hardware",
            "instruction semantics Ebv.Ebpf (validated three-way by C01), harness/vh/dsl_fixed.py, harness/vh/interp.py",
-           "FIXED_BASE regenerated from /repo into Ebv.Generated.Consts"]
+           "FIXED_BASE regenerated from /repo into Ebv.Generated.Consts",
+           "hand-written model Ebv.FixedStore of the Python side over histories (state = the raw contents per instance and "
+           "variable, nothing else): tied by exact equality of the raw contents of every declared variable and of the values read "
+           "after every operation of the generated histories; the effect of a program run enters the model as the writes the "
+           "Fraction reference predicts (the arithmetic is (a)/(b)'s subject)"]
 ASSUMPTIONS = ["decimal constants are decimal literals n/10^5 with |n| < 2^51 (arbitrary floats, NaN, infinities, subnormals: "
                "outside); arithmetic between two Python numbers one of which is a float is CPython's, not ebpfcat's (not generated)",
                "fit precondition of the oracle: every node of the tree the generator computes (after the store scaling) has a value "
@@ -616,7 +970,14 @@ RULE = ("programs = JSON surface DSL with fixed typing (dsl_fixed.py): leaves x 
         "optionally one arithmetic step or a register +- int operand (Sum objects: signed register with a non-negative number, "
         "merged numbers), all six operators, operand values next to each other and on both sides of 2^31 and 2^32 "
         "raw; float model: n/10^5 for |n| <= 2*10^6 (exhaustive in the thorough tier, |n| <= 6*10^4 plus "
-        "stride 37 in the quick tier), random windows below 2^51, random fractions; non-trivial = accepted with > 1 instruction")
+        "stride 37 in the quick tier), random windows below 2^51, random fractions; non-trivial = accepted with > 1 instruction; "
+        "histories (gen_hist): 1-2 main programs (class with 2-3 x variables and optionally a q variable, or its derived class with "
+        "1-2 more variables) each with 0-2 sub-program instances of one class (1-2 x variables), all on one ArrayMap object, the later "
+        "program created in the middle of the history; per program 1-4 statements (+ - * / // between x variables of any of its "
+        "instances, decimal and integer constants, the q variable); 6-15 operations: assign a decimal from Python (pool of 3-6 "
+        "values per case incl. decimals below their double, >= 2^31 scaled, negatives; with probability 1/4 exactly an assignment "
+        "made before), run the program (only where the reference says every node fits and no division has a negative operand), "
+        "read, assign an integer")
 PROVED = [
     "fx_typing / elabF_rep: induction over surface trees, all signs, over Z/Q -- every operator overload branch (direct, reflected, "
     "Sum.__radd__ first, delegation of integer-only nodes to Gen) builds a tree whose C01 integer semantics is the exact rational "
@@ -626,6 +987,10 @@ PROVED = [
     "calc_correct; C02_partial in terms of Ebpf.run and the surface expression the user wrote",
     "C02_const: decimals n/10^5, |n| < 2^51, are stored exactly (|fl(fl(d)*10^5) - n| <= 1/4) in the binary64 model; Python-side "
     "set/get round trip",
+    "Python side over histories (Ebv.FixedStore, any number of instances, arbitrary writes in between): set_exact_after_history, "
+    "set_history_irrelevant (the result of an assignment does not depend on earlier uses or contents), set_frame, untouched_keeps, "
+    "last_set_wins, instances_independent / other_instances_keep; memo_refuted: the variant that remembers the value assigned last "
+    "and skips the write is refuted on assign 1.5 / program makes 2.5 / assign 1.5",
 ]
 CORRESPONDED_NOT_PROVED = [
     "float // non-fixed expression (`__rfloordiv__` truncates the float with int() first): modelled (decTrunc) + corresponded + "
